@@ -17,7 +17,7 @@ import ChessVerif.Proofs.SearchScoreFree
 namespace ChessVerif
 namespace Search
 
-variable {σ π : Type} [PsInv σ]
+variable {σ π : Type} [PsInv σ] {t0 : Bool}
 
 /-- the value of a final root: drawn by clock / repetition, or no playable move. -/
 def fsOf (b : Board) : Score :=
@@ -198,9 +198,9 @@ theorem finAsp_inside {fs a b f : Int} (h : FinAsp fs a b f) : a < fs ∧ fs < b
     the ghost flag). -/
 theorem aspiration_final (c : Comp σ π) (L : Limits) {Good : Board → Prop} {TTok : σ → Prop} {μ : Board → Nat}
     (hl : Laws c Good) (sl : ScoreLaws c Good TTok μ) (al : AspLaws c) (fuel : Nat) (idD : Int) (hd : 1 ≤ idD) :
-    ∀ (n : Nat) (alpha beta factor : Score) (s : St σ), Good s.board → TTA TTok s → Final c.keys s.board →
+    ∀ (n : Nat) (alpha beta factor : Score) (s : St σ), Good s.board → TTA TTok t0 s → Final c.keys s.board →
       (s.nmpOut = false → FinAsp (fsOf s.board) alpha beta factor) →
-      TTA TTok (aspiration c L fuel idD n alpha beta factor s).st ∧
+      TTA TTok t0 (aspiration c L fuel idD n alpha beta factor s).st ∧
       (∀ al be sa s', aspiration c L fuel idD n alpha beta factor s = .ok al be sa s' → s'.nmpOut = false →
         sa = fsOf s.board ∧ s'.pv.row 0 = []) := by
   intro n
@@ -222,9 +222,10 @@ theorem aspiration_final (c : Comp σ π) (L : Limits) {Good : Board → Prop} {
     have hap := (abort_pv L r.2).1
     have hps := abort_ps L r.2
     have han := abort_nmpOut L r.2
+    have hatt := abort_ttOut L r.2
     have hfa := @abort_false σ _ L r.2
-    generalize abort L r.2 = as at haf hap hps han hfa ⊢
-    have htt2 : TTA TTok as.2 := hrg.1.congr hps han
+    generalize abort L r.2 = as at haf hap hps han hatt hfa ⊢
+    have htt2 : TTA TTok t0 as.2 := hrg.1.congr hps han hatt
     have hback : as.2.nmpOut = false → s.nmpOut = false := fun h => hab.1.mono.a_back (by rw [← han]; exact h)
     split
     · exact ⟨htt2, fun _ _ _ _ h => by cases h⟩
@@ -261,7 +262,7 @@ theorem aspiration_final (c : Comp σ π) (L : Limits) {Good : Board → Prop} {
 /-- iterations 0 and 1 on a final root, from any reachable window (guarded). -/
 theorem aspiration_final01 (c : Comp σ π) (L : Limits) {Good : Board → Prop} {TTok : σ → Prop} {μ : Board → Nat}
     (hl : Laws c Good) (sl : ScoreLaws c Good TTok μ) (al : AspLaws c) (fuel : Nat) (idD : Int) (h01 : idD = 0 ∨ idD = 1) :
-    ∀ (n : Nat) (alpha beta factor : Score) (s : St σ), Good s.board → TTA TTok s → Final c.keys s.board →
+    ∀ (n : Nat) (alpha beta factor : Score) (s : St σ), Good s.board → TTA TTok t0 s → Final c.keys s.board →
       (s.nmpOut = false → AspInv alpha beta factor) →
       (∀ al be sa s', aspiration c L fuel idD n alpha beta factor s = .ok al be sa s' → s'.nmpOut = false →
         s'.pv.row 0 = [] ∧ (idD = 1 → sa = fsOf s.board)) := by
@@ -284,9 +285,10 @@ theorem aspiration_final01 (c : Comp σ π) (L : Limits) {Good : Board → Prop}
     have hap := (abort_pv L r.2).1
     have hps := abort_ps L r.2
     have han := abort_nmpOut L r.2
+    have hatt := abort_ttOut L r.2
     have hfa := @abort_false σ _ L r.2
-    generalize abort L r.2 = as at haf hap hps han hfa ⊢
-    have htt2 : TTA TTok as.2 := hrg.1.congr hps han
+    generalize abort L r.2 = as at haf hap hps han hatt hfa ⊢
+    have htt2 : TTA TTok t0 as.2 := hrg.1.congr hps han hatt
     have hback : as.2.nmpOut = false → s.nmpOut = false := fun h => hab.1.mono.a_back (by rw [← han]; exact h)
     split
     · intro _ _ _ _ h; cases h
@@ -325,7 +327,7 @@ theorem idLoop_final (c : Comp σ π) (L : Limits) (clock : Clock) {Good : Board
     (hl : Laws c Good) (sl : ScoreLaws c Good TTok μ) (al : AspLaws c) (fuel : Nat) (b : Board) (hg : Good b)
     (hfin : Final c.keys b) (hd : 1 ≤ L.depth) :
     ∀ (n : Nat) (idD : Int) (v : IDVars) (s : St σ), s.board = b → 0 ≤ idD → (n : Int) + idD = 64 →
-      TTA TTok s → (s.nmpOut = false → idD ≤ 1 → AspInv v.alpha v.beta 1) →
+      TTA TTok t0 s → (s.nmpOut = false → idD ≤ 1 → AspInv v.alpha v.beta 1) →
       (s.nmpOut = false → 2 ≤ idD → FinAsp (fsOf b) v.alpha v.beta 1 ∧ v.score = fsOf b) →
       (s.nmpOut = false → v.move = 0) →
       (idLoop c L clock fuel n idD v s).st.nmpOut = false →
@@ -361,7 +363,7 @@ theorem idLoop_final (c : Comp σ π) (L : Limits) (clock : Clock) {Good : Board
       have hfs : Final c.keys s.board := by rw [hb]; exact hfin
       have hasp := aspiration_spec c L hl fuel idD fuel v.alpha v.beta 1 s hgs htt.1
       -- the table predicate after the loop, and the result of an in-window search
-      have hres : TTA TTok (aspiration c L fuel idD fuel v.alpha v.beta 1 s).st ∧
+      have hres : TTA TTok t0 (aspiration c L fuel idD fuel v.alpha v.beta 1 s).st ∧
           (∀ al be sa s', aspiration c L fuel idD fuel v.alpha v.beta 1 s = .ok al be sa s' → s'.nmpOut = false →
             InR sa ∧ s'.pv.row 0 = [] ∧ (1 ≤ idD → sa = fsOf b)) := by
         by_cases h1 : idD ≤ 1
@@ -447,8 +449,8 @@ theorem go_final_free (c : Comp σ π) (L : Limits) (clock : Clock) {Good : Boar
     (go c L clock fuel e b nodes0).move = 0 ∧ FinalScore c.keys b (go c L clock fuel e b nodes0).score := by
   have h := idLoop_final c L clock hl sl al fuel b hg hfin hd 64 0
     { alpha := -Inf - 1, beta := Inf + 1, score := 0, move := 0, ponder := 0, reads := 0, ppolls := 0, out := [] }
-    (goInit L e b nodes0) rfl (Int.le_refl 0) (by decide) ⟨sl.tt_ok _ htt, fun _ => htt⟩ (fun _ _ => aspInv_init)
-    (fun _ h => absurd h (by decide)) (fun _ => rfl) hA hdone
+    (goInit L e b nodes0) rfl (Int.le_refl 0) (by decide) (t0 := true) ⟨sl.tt_ok _ htt, fun _ => ⟨htt, fun h => by cases h⟩⟩
+    (fun _ _ => aspInv_init) (fun _ h => absurd h (by decide)) (fun _ => rfl) hA hdone
   refine ⟨h.1, ?_⟩
   have hs : (go c L clock fuel e b nodes0).score = fsOf b := h.2
   rw [hs]; exact fsOf_final hfin
